@@ -229,3 +229,10 @@ func init() {
 		return ret(mkInt(int64(n)))
 	}
 }
+
+func init() {
+	stubs[rosmarPath+".verifDoneClosed"] = func(e *Exec, th *Thread, c *CallCtx, a []Val) StubRes {
+		ch := a[0].(*ChanV)
+		return ret(mkBool(!ch.isNil && ch.closed))
+	}
+}
